@@ -44,6 +44,31 @@ fn main() {
             let res = engine::run_property(&spec, seed, tier);
             std::process::exit(res.exit);
         }
+        Some("worker") => {
+            // vp worker <ID> <sub> <tier> <seed> <shard:cases,...>
+            let id = args.get(1).unwrap_or_else(|| usage());
+            let sub = args.get(2).unwrap_or_else(|| usage());
+            let tier = match args.get(3).map(String::as_str) {
+                Some("thorough") => Tier::Thorough,
+                _ => Tier::Quick,
+            };
+            let seed: u64 = args.get(4).and_then(|s| s.parse().ok()).unwrap_or(0);
+            let shards: Vec<(u32, u32)> = args
+                .get(5)
+                .map(|s| {
+                    s.split(',')
+                        .filter_map(|p| {
+                            let (a, b) = p.split_once(':')?;
+                            Some((a.parse().ok()?, b.parse().ok()?))
+                        })
+                        .collect()
+                })
+                .unwrap_or_default();
+            let Some(spec) = props::spec(id) else {
+                std::process::exit(2);
+            };
+            std::process::exit(engine::run_worker(&spec, sub, seed, tier, &shards));
+        }
         Some("replay") => {
             let id = args.get(1).unwrap_or_else(|| usage());
             let file = args.get(2).unwrap_or_else(|| usage());
